@@ -146,6 +146,20 @@ def check(case, ctx):
                         ctx.fail('result', pmodel.render(e), g if how == 'function' else g.serialize(), call=call,
                                  index=idx, diff=d)
                         break
+    # size / repeat passed by keyword means the same as passed by position
+    for name, it, count in ops:
+        kwname = 'repeat' if name == 'product' else 'size'
+        for size in (1, n):
+            if name in ('product', 'combinations_with_replacement') and n ** size > 300:
+                continue
+            a1 = lib.call(getattr(p, name), s, size)
+            a2 = lib.call(getattr(p, name), s, **{kwname: size})
+            a3 = lib.call(getattr(p.parse(s), name), **{kwname: size})
+            ctx.evals += 3
+            k3 = [x.serialize() for x in a3[1]] if a3[0] == 'ok' else a3[1]
+            if a1[0] != 'ok' or a2[0] != 'ok' or a1[1] != a2[1] or k3 != a1[1]:
+                ctx.fail('keyword-size-differs', a1[1] if a1[0] != 'ok' else len(a1[1]),
+                         [a2[1] if a2[0] != 'ok' else len(a2[1]), k3 if a3[0] != 'ok' else len(k3)], call=[name, s, {kwname: size}])
     # the same call again after the caller edited the previous result in place (size 0 is outside the quantifier: the
     # unchanged library raises there for peptides with a charge or a C-terminal modification)
     for name, it, count in ops:
